@@ -18,6 +18,7 @@ EXPLANATION = (
     "constant name and requires that no user hole lies in its scope; C09-R3 enumerates every free "
     "load the templates perform on a non-reserved name (builtins and helper globals the output "
     "relies on), per (name, emitting function)."
+    ' C09-R4: size of the random suffix space. Shared: C06-R9 / C06-R3 (alpha-renaming of comprehension variables and class members), C06-R11, C14-R5.'
 )
 ASSUMPTIONS = ["two random 10-letter suffixes never coincide (probability argument)"]
 
